@@ -71,6 +71,61 @@ theorem imports_order_independent (l1 l2 : List Import) (hp : l1.Perm l2) :
   rw [sortBy_eq_of_perm importLe importLe_total importLe_trans l1 l2 hp
     (fun a _ b _ h1 h2 => importLe_antisymm a b h1 h2)]
 
+theorem reqLe_total (a b : Req) : reqLe a b = true ∨ reqLe b a = true := by
+  unfold reqLe
+  by_cases h : a.sel = b.sel
+  · simp only [h, beq_self_eq_true, if_true]; exact importLe_total _ _
+  · have h' : ¬ b.sel = a.sel := fun e => h e.symm
+    simp only [beq_iff_eq, h, h', if_false]; exact lexLe_total _ _
+
+theorem reqLe_antisymm (a b : Req) (h1 : reqLe a b = true) (h2 : reqLe b a = true) : a = b := by
+  unfold reqLe at h1 h2
+  by_cases h : a.sel = b.sel
+  · simp only [h, beq_self_eq_true, if_true] at h1 h2
+    have := importLe_antisymm _ _ h1 h2
+    cases a; cases b; simp_all
+  · have h' : ¬ b.sel = a.sel := fun e => h e.symm
+    simp only [beq_iff_eq, h, h', if_false] at h1 h2
+    exact absurd (lexLe_antisymm _ _ h1 h2) h
+
+theorem reqLe_trans (a b c : Req) (h1 : reqLe a b = true) (h2 : reqLe b c = true) : reqLe a c = true := by
+  obtain ⟨sa, ia⟩ := a
+  obtain ⟨sb, ib⟩ := b
+  obtain ⟨sc, ic⟩ := c
+  unfold reqLe at *
+  simp only at h1 h2 ⊢
+  by_cases hab : sa = sb
+  · subst hab
+    by_cases hbc : sa = sc
+    · subst hbc
+      simp only [beq_self_eq_true, if_true] at h1 h2 ⊢
+      exact importLe_trans _ _ _ h1 h2
+    · simp only [beq_self_eq_true, if_true, beq_iff_eq, hbc, if_false] at h1 h2 ⊢
+      exact h2
+  · by_cases hbc : sb = sc
+    · subst hbc
+      simp only [beq_self_eq_true, if_true, beq_iff_eq, hab, if_false] at h1 h2 ⊢
+      exact h1
+    · simp only [beq_iff_eq, hab, hbc, if_false] at h1 h2
+      have hle := lexLe_trans _ _ _ h1 h2
+      by_cases hac : sa = sc
+      · exfalso
+        subst hac
+        exact hab (lexLe_antisymm _ _ h1 h2)
+      · simp only [beq_iff_eq, hac, if_false]; exact hle
+
+/-- **The text's import section depends only on the set of bindings**: the manager `config_str()` prints from —
+    the statements, their aliases and the name every configurable is printed under — is the same for any two
+    orders in which the bindings (and so the requirements for their configurables) were made, and any two
+    orders in which the imports were recorded (D33: requirements used to be served in binding order, so two
+    modules with one leaf name swapped `name` / `name2`). -/
+theorem requirements_order_independent (rec1 rec2 : List Import) (reqs1 reqs2 : List Req)
+    (hr : rec1.Perm rec2) (hq : reqs1.Perm reqs2) : IM.ofConfig rec1 reqs1 = IM.ofConfig rec2 reqs2 := by
+  unfold IM.ofConfig
+  rw [imports_order_independent rec1 rec2 hr,
+    sortBy_eq_of_perm reqLe reqLe_total reqLe_trans reqs1 reqs2 hq
+      (fun a _ b _ h1 h2 => reqLe_antisymm a b h1 h2)]
+
 /-- A statement for a module that already has one is dropped: of several statements importing one module
     the first in sorted order — the `from` form, then no alias, then the smallest alias — is the one kept. -/
 theorem later_of_module_dropped (im : IM) (st : Import)
@@ -83,5 +138,13 @@ def demoB : Import := { module := ["collections", "abc"], alias := some "collect
 example : IM.ofRecorded [demoA, demoB] = IM.ofRecorded [demoB, demoA] :=
   imports_order_independent _ _ (List.Perm.swap _ _ _)
 example : (IM.ofRecorded [demoB, demoA]).map (·.imports) = some [demoA] := by decide +kernel
+
+/-! Non-vacuity of `requirements_order_independent`: `a.util` and `b.util`, bound programmatically in either order. -/
+def reqA : Req := { sel := ["a", "util", "fa"], imp := { module := ["a", "util"], isFrom := true } }
+def reqB : Req := { sel := ["b", "util", "fb"], imp := { module := ["b", "util"], isFrom := true } }
+example : IM.ofConfig [] [reqA, reqB] = IM.ofConfig [] [reqB, reqA] :=
+  requirements_order_independent _ _ _ _ (List.Perm.refl _) (List.Perm.swap _ _ _)
+example : (IM.ofConfig [] [reqB, reqA]).map (·.selectors) = some [(["a", "util"], ["util"]), (["b", "util"], ["util2"])] := by
+  decide +kernel
 
 end Gin.C06
